@@ -216,6 +216,11 @@ func (c *Conn) clientHandshake(ctx context.Context) (err error) {
 			// 设置读取超时
 			c.pconn.SetReadDeadline(time.Now().Add(c.retransmitTimer.current))
 
+			// resend：收到 HelloVerifyRequest 后需要立即（重新）发送 ClientHello。
+			// switch 内的 break 只跳出 switch，必须显式跳出读循环，
+			// 否则带 cookie 的 ClientHello 要等到重传定时器超时才会发出。
+			resend := false
+
 			msg, readErr := c.readHandshake(nil)
 			if readErr != nil {
 				if netErr, ok := readErr.(net.Error); ok && netErr.Timeout() {
@@ -233,6 +238,7 @@ func (c *Conn) clientHandshake(ctx context.Context) (err error) {
 				if len(hello.cookie) > 0 {
 					// 对端重传了 HelloVerifyRequest，我们重传 ClientHello
 					c.hsState.Store(int32(stateSending))
+					resend = true
 					break
 				}
 
@@ -241,6 +247,7 @@ func (c *Conn) clientHandshake(ctx context.Context) (err error) {
 				hello.raw = nil // 强制重新 marshaling
 				c.handBuf.Reset()
 				c.hsState.Store(int32(stateSending))
+				resend = true
 				break
 
 			case *serverHelloMsg:
@@ -255,7 +262,7 @@ func (c *Conn) clientHandshake(ctx context.Context) (err error) {
 				return unexpectedMessageError(serverHello, msg)
 			}
 
-			if serverHello != nil {
+			if serverHello != nil || resend {
 				break
 			}
 		}
